@@ -104,7 +104,7 @@ func init() { checks["C16"] = c16 }
 
 func c16(r *report.Run) {
 	cases := c16types.All
-	if r.Tier == "quick" {
+	if r.Tier == "never" { // the full family takes about a second: both tiers run all of it
 		// quick: every type with <= 2 slots and every third type with 3 slots
 		var sel []c16types.Case
 		for i, c := range cases {
